@@ -240,7 +240,18 @@ func runC06(ctx Ctx) int {
 	var items []item
 	c06Cfg.EnumFull(func(cv []int) bool {
 		cp := ssoFromVec(c06Cfg, cv)
-		c06Msg.EnumK(k, func(mv []int) bool {
+		// quick: k message deviations under the configurations with at most one configuration dimension off its default, k-1 under
+		// the other configurations (k + 1 deviations in total at most); thorough: k under every configuration
+		km, off := k, 0
+		for _, x := range cv {
+			if x != 0 {
+				off++
+			}
+		}
+		if run.Tier != "thorough" && off > 1 {
+			km = k - 1
+		}
+		c06Msg.EnumK(km, func(mv []int) bool {
 			p := ssoFromVec(c06Msg, mv)
 			p.IssuerCfg, p.SSOEp, p.Transport, p.StoreLookup = cp.IssuerCfg, cp.SSOEp, cp.Transport, cp.StoreLookup
 			if c06Valid(p) {
@@ -325,7 +336,7 @@ func runC06(ctx Ctx) int {
 		cb, cs = 2, 180
 	}
 	runConc(run, "C06", cb, cs)
-	finishCapped(run, complete, fmt.Sprintf("%d executions: 96 configs x k<=%d over %d message dims (%d single alternatives)", len(items), k, len(c06Msg.Dims), c06Msg.CountK(1)-1))
+	finishCapped(run, complete, fmt.Sprintf("%d executions: 96 configs x k<=%d over %d message dims (%d single alternatives; quick: k only under configurations with <= 1 configuration dimension off its default, k-1 under the others)", len(items), k, len(c06Msg.Dims), c06Msg.CountK(1)-1))
 	return run.Finish()
 }
 
